@@ -284,6 +284,25 @@ def cookie_histories(maxk):
                 cs.append(Case('api.cookie %s%s' % (init, ''.join(' ' + c for c in seq)), 'cookie-history'))
     return cs
 
+def prefix_histories(maxk=2):
+    """setter histories of APL items and client-subnet options (constructor, then up to `maxk` setter calls, the state printed
+    after every call): a value reached through setters that refuse must be unchanged, one reached through setters that
+    accept must still satisfy the prefix invariant the encoder relies on"""
+    cs = []
+    ap_calls = ['prefix:0', 'prefix:8', 'prefix:31', 'prefix:32', 'prefix:33', 'prefix:40', 'prefix:128', 'prefix:129', 'prefix:255', 'neg:1', 'addr:1/0a000000', 'addr:1/0a000001', 'addr:1/c0000201', 'addr:2/' + 'ff' * 16, 'addr:2/' + '00' * 16]
+    ap_inits = ['1/0/0/00000000', '1/8/1/0a000000', '1/32/0/0a000001', '1/24/0/c0000200', '2/64/1/1122334400000000' + '00' * 8, '2/128/0/' + '00' * 15 + '01', '2/0/0/' + '00' * 16]
+    for init in ap_inits:
+        for k in range(0, maxk + 1):
+            for seq in itertools.product(ap_calls, repeat=k):
+                cs.append(Case('api.apitem %s%s' % (init, ''.join(' ' + c for c in seq)), 'apitem-history'))
+    ecs_calls = ['src:0', 'src:1', 'src:24', 'src:32', 'src:33', 'src:64', 'src:128', 'src:129', 'scope:0', 'scope:32', 'scope:33', 'scope:64', 'scope:128', 'scope:129', 'scope:255',
+                 'addr:1/0a000000', 'addr:1/0a000001', 'addr:2/' + '00' * 16, 'addr:2/20010db8' + '00' * 12]
+    for init in ('1/0/0/00000000', '1/24/0/0a000100', '1/24/0/0a010200', '1/32/32/0a000001', '2/32/0/20010db8' + '00' * 12, '2/56/64/20010db8000100' + '00' * 9):
+        for k in range(0, maxk + 1):
+            for seq in itertools.product(ecs_calls, repeat=k):
+                cs.append(Case('api.ecs %s%s' % (init, ''.join(' ' + c for c in seq)), 'ecs-history'))
+    return cs
+
 def name_limit_api_cases():
     """names around 255 octets built through every public constructor (text with and without the final dot, appends)"""
     cs = []
@@ -396,7 +415,7 @@ def C08(tier, rng):
         cs.append(enc_case(m, 'big'))
     # "every value constructible through the public API": values reached through setters that refuse, and names built
     # from text, must still be inside the limits the encoder relies on
-    cs += cookie_histories(2)
+    cs += cookie_histories(2) + prefix_histories(2)
     cs += name_limit_api_cases()
     cs += sweep_enc_dns_cases()
     for n in (1, 62, 63, 64, 65, 66, 100, 255):
@@ -480,6 +499,8 @@ def C10(tier, rng):
             r = Renderer(Layout(random.Random(1), compress=1.0)); r.rr(rr)
             cs.append(Case('dec.rr %s' % hx(bytes(r.out)), 'standalone-ptr0'))
     cs += standalone_internal_pointer_cases()
+    # elements built through setters: a refused setter call must leave the element as it was (it is encoded afterwards)
+    cs += prefix_histories(1) + cookie_histories(1)
     return cs
 
 def standalone_internal_pointer_cases():
@@ -568,6 +589,15 @@ def C11(tier, rng):
         cs.append(Case('dec.rr %s' % hx(raw_rr(48, 1, w + b'\3\x08key')), 'dnskey-flags'))
         cs.append(Case('dec.rr %s' % hx(opt_rr([w + b'\0\0'])), 'optcode'))
         cs.append(Case('dec.rr %s' % hx(opt_rr([opt_option(8, w + b'\0\0')])), 'family'))
+    # an unsupported code point must be reported WITH its code even when what follows it is short or malformed: the code is
+    # validated where it is read (EDNS option code before option length / data; algorithm and digest octets before the blob)
+    for code in (0, 1, 2, 3, 5, 9, 11, 13, 15, 65001, 65535):
+        for tail in (b'', b'\0', b'\0\1', b'\0\4ab', b'\xff\xff', b'\0\0'):
+            rd = code.to_bytes(2, 'big') + tail
+            cs.append(Case('dec.rr %s' % hx(b'\0\0\x29\x10\0\0\0\0\0' + len(rd).to_bytes(2, 'big') + rd), 'optcode-truncated'))
+            rd2 = b'\0\x0c\0\2\0\0' + rd                       # after a complete padding option
+            cs.append(Case('dec.rr %s' % hx(b'\0\0\x29\x10\0\0\0\0\0' + len(rd2).to_bytes(2, 'big') + rd2), 'optcode-truncated'))
+
     return cs
 
 # ---------------------------------------------------------------- C12 / C13
@@ -652,7 +682,11 @@ def C12(tier, rng):
         for op in ('tag', 'psdn', 'isdn', 'sa'):
             cs.append(Case('api.%s %s' % (op, hx(bytes([b]))), op + '-byte'))
     # every public way to build a name meets the same limit (text with / without the final dot, appends)
-    cs += name_limit_api_cases() + label_length_octet_cases()
+    cs += name_limit_api_cases() + label_length_octet_cases() + unicode_validator_cases()
+    for o in (b'\xd9\xa3', b'\xef\xbc\xa1', b'\xef\xbc\x91', b'\xe0\xa5\xa7', b'\xce\xb1', b'\xe2\x85\xa7'):
+        for s_ in (o, b'a' + o, o + b'1', b'12' + o):
+            for op in ('tag', 'psdn', 'isdn', 'sa'):
+                cs.append(Case('api.%s %s' % (op, hx(s_)), op + '-unicode'))
     return cs
 
 SPECIAL = [b'K', b'k', b'\xe2\x84\xaa', b'\xc4\xb0', b'i\xcc\x87', b'\xe1\xba\x9e', b'ss', b'A', b'a', b'Z', b'z', b'0', b'.', b'\x00', b'\xc3\x89', b'\xc3\xa9', b'[', b'{', b'@', b'`']
